@@ -61,7 +61,8 @@ def match_known(pid, res, known):
     for e in known:
         if e.get("status") != "known" or e.get("property") != pid:
             continue
-        if e.get("class") != res["cls"]:
+        classes = e.get("classes") or [e.get("class")]
+        if res["cls"] not in classes:
             continue
         sig = e.get("signature", {})
         if all(res["sig"].get(k) == v for k, v in sig.items()):
